@@ -211,40 +211,210 @@ Proof.
       destruct (Nat.eq_dec k h) as [->|Hk]; [apply (Hf eq_refl)|apply Hh; assumption].
 Qed.
 
-(* ---- CKPT gating ---- *)
-Lemma try_locks_others : forall ls t g b t', TInv t -> try_locks t g ls = Some (b, t') ->
-  TInv t' /\ forall l h, h <> g -> gst (t' l) h = gst (t l) h.
-Proof.
-  induction ls as [|l0 r IH]; intros t g b t' HT H; cbn [try_locks] in H.
-  - inversion H; subst. auto.
-  - destruct (lk_eqb l0 LCkpt && negb (gstate_eqb (state (t LWrite)) Unlocked) && negb (gstate_eqb (gst (t LWrite) g) Exclusive)).
-    + inversion H; subst. auto.
-    + destruct (trylock_facts t l0 g HT) as [bb [t1 [E [HT1 [Ho [Hh _]]]]]]. rewrite E in H.
-      assert (Hothers1 : forall l h, h <> g -> gst (t1 l) h = gst (t l) h).
-      { intros l h Hne. destruct (lk_eq_dec l l0) as [->|Hl]; [apply Hh; assumption|rewrite Ho by assumption; reflexivity]. }
-      destruct bb.
-      * destruct (IH t1 g b t' HT1 H) as [A Bq]. split; [assumption|]. intros l h Hne. rewrite Bq by assumption. apply Hothers1; assumption.
-      * inversion H; subst. auto.
-Qed.
-
+(* ---- requests over several locks: granted or refused as a whole ---- *)
 Lemma gstate_eqb_eq a b : gstate_eqb a b = true <-> a = b.
 Proof. destruct a, b; cbn; split; congruence. Qed.
 
-Theorem ckpt_gating : forall ls t g t', TInv t -> try_locks t g ls = Some (true, t') -> In LCkpt ls ->
+Definition Restorable (t : table) (g : gid) (l : lk) (p : gstate) : Prop :=
+  gst (t l) g = p \/ p = Unlocked \/ (p = Shared /\ gst (t l) g = Exclusive) \/
+  (p = Exclusive /\ gst (t l) g = Shared /\ forall h, h <> g -> gst (t l) h = Unlocked).
+
+Lemma restore_one_ok t g l p : TInv t -> Restorable t g l p ->
+  exists t', restore_one t g l p = Some t' /\ TInv t' /\ (forall l', l' <> l -> t' l' = t l') /\
+             (forall h, h <> g -> gst (t' l) h = gst (t l) h) /\ gst (t' l) g = p.
+Proof.
+  intros HT HR. unfold restore_one. destruct (gstate_eqb (gst (t l) g) p) eqn:Eq.
+  - apply gstate_eqb_eq in Eq. exists t. split; [reflexivity|]. split; [assumption|]. split; [reflexivity|]. split; [reflexivity|assumption].
+  - assert (gst (t l) g <> p) as Hne by (intros E; apply gstate_eqb_eq in E; congruence).
+    destruct HR as [E|[->|[[-> Hx]|[-> [Hs Ho]]]]]; [contradiction| | |].
+    + destruct (unlock_facts t l g HT) as [t' [E [HT' [Ho [Hh Hu]]]]]. rewrite E. exists t'. split; [reflexivity|]. split; [assumption|]. split; [assumption|]. split; assumption.
+    + destruct (tryrlock_facts t l g HT) as [b [t' [E [HT' [Ho [Hh [Ht Hf]]]]]]]. rewrite E. exists t'.
+      split; [reflexivity|]. split; [assumption|]. split; [assumption|]. split; [assumption|].
+      destruct b; [apply Ht; reflexivity|].
+      exfalso. destruct (Hf eq_refl) as [_ Hn]. apply Hn. intros h Hh'. rewrite (excl_alone (t l) g (HT l) Hx h Hh'). discriminate.
+    + destruct (trylock_facts t l g HT) as [b [t' [E [HT' [Ho' [Hh [Ht Hf]]]]]]]. rewrite E. exists t'.
+      split; [reflexivity|]. split; [assumption|]. split; [assumption|]. split; [assumption|].
+      destruct b; [apply Ht; reflexivity|].
+      exfalso. destruct (Hf eq_refl) as [_ Hn]. apply Hn. exact Ho.
+Qed.
+
+Lemma restore_guards_ok : forall done t g, TInv t -> NoDup (map fst done) ->
+  (forall l p, In (l, p) done -> Restorable t g l p) ->
+  exists t', restore_guards t g done = Some t' /\ TInv t' /\
+    (forall l h, h <> g -> gst (t' l) h = gst (t l) h) /\
+    (forall l p, In (l, p) done -> gst (t' l) g = p) /\
+    (forall l, ~ In l (map fst done) -> t' l = t l).
+Proof.
+  induction done as [|[l p] r IH]; intros t g HT Hnd HR; cbn [restore_guards].
+  - exists t. split; [reflexivity|]. split; [assumption|]. split; [reflexivity|]. split; [intros l p []|reflexivity].
+  - cbn [map fst] in Hnd. inversion Hnd as [|? ? Hnotin Hnd']; subst.
+    destruct (restore_one_ok t g l p HT (HR l p (or_introl eq_refl))) as [t1 [E [HT1 [Ho [Hh Hp]]]]]. rewrite E.
+    assert (forall l' p', In (l', p') r -> Restorable t1 g l' p') as HR1.
+    { intros l' p' Hin. assert (l' <> l) as Hne. { intros ->. apply Hnotin. apply in_map_iff. exists (l, p'). auto. }
+      unfold Restorable. rewrite (Ho l' Hne). apply HR. right; assumption. }
+    destruct (IH t1 g HT1 Hnd' HR1) as [t2 [E2 [HT2 [Hoth [Hin Hnin]]]]]. rewrite E2. exists t2.
+    split; [reflexivity|]. split; [assumption|]. split; [|split].
+    + intros l' h Hne. rewrite Hoth by assumption.
+      destruct (lk_eq_dec l' l) as [->|Hl]; [apply Hh; assumption|rewrite Ho by assumption; reflexivity].
+    + intros l' p' [Heq|Hin'].
+      * injection Heq as <- <-. rewrite (Hnin l Hnotin). exact Hp.
+      * apply Hin; assumption.
+    + intros l' Hn. cbn [map fst In] in Hn. rewrite Hnin by tauto. apply Ho. intros ->. tauto.
+Qed.
+
+Lemma nodup_app_l {A} (a b : list A) : NoDup (a ++ b) -> NoDup a.
+Proof. induction a as [|x a IH]; cbn; intros H; [constructor|]. inversion H; subst. constructor; [rewrite in_app_iff in *; tauto|auto]. Qed.
+Lemma nodup_app_disj {A} (a b : list A) x : NoDup (a ++ b) -> In x a -> In x b -> False.
+Proof.
+  induction a as [|y a IH]; cbn; intros H Ha Hb; [destruct Ha|]. inversion H; subst.
+  destruct Ha as [->|Ha]; [rewrite in_app_iff in *; tauto|eauto].
+Qed.
+
+(* refusal: the table goes back, for every owner and every lock, to the guard states of [t0] *)
+Lemma refuse_facts t g done t0 r (acq : gstate) :
+  TInv t -> NoDup (map fst done) ->
+  (forall l p, In (l, p) done -> Restorable t g l p /\ p = gst (t0 l) g) ->
+  (forall l, ~ In l (map fst done) -> gst (t l) g = gst (t0 l) g) ->
+  (forall l h, h <> g -> gst (t l) h = gst (t0 l) h) ->
+  refuse t g done = Some r ->
+  fst r = false /\ TInv (snd r) /\ (forall l h, gst (snd r l) h = gst (t0 l) h).
+Proof.
+  intros HT Hnd H1 H2 H3 H. unfold refuse in H.
+  destruct (restore_guards_ok done t g HT Hnd (fun l p Hin => proj1 (H1 l p Hin))) as [t' [E [HT' [Hoth [Hin Hnin]]]]].
+  rewrite E in H. inversion H; subst r. cbn [fst snd]. split; [reflexivity|]. split; [assumption|].
+  intros l h. destruct (Nat.eq_dec h g) as [->|Hne]; [|rewrite Hoth by assumption; apply H3; assumption].
+  destruct (in_dec lk_eq_dec l (map fst done)) as [Hi|Hi].
+  - apply in_map_iff in Hi. destruct Hi as [[l' p] [El Hi]]. cbn in El. subst l'.
+    rewrite (Hin l p Hi). apply (proj2 (H1 l p Hi)).
+  - rewrite (Hnin l Hi). apply H2. assumption.
+Qed.
+
+Lemma try_locks_from_facts : forall ls t g done t0 b t',
+  TInv t -> NoDup (map fst done ++ ls) ->
+  (forall l p, In (l, p) done -> gst (t l) g = Exclusive /\ p = gst (t0 l) g) ->
+  (forall l, ~ In l (map fst done) -> gst (t l) g = gst (t0 l) g) ->
+  (forall l h, h <> g -> gst (t l) h = gst (t0 l) h) ->
+  try_locks_from t g ls done = Some (b, t') ->
+  TInv t' /\ (forall l h, h <> g -> gst (t' l) h = gst (t0 l) h) /\
+  (b = false -> forall l h, gst (t' l) h = gst (t0 l) h).
+Proof.
+  assert (Hres : forall t g done t0, (forall l p, In (l, p) done -> gst (t l) g = Exclusive /\ p = gst (t0 l) g) ->
+             forall l p, In (l, p) done -> Restorable t g l p /\ p = gst (t0 l) g).
+  { intros t g done t0 H l p Hin. destruct (H l p Hin) as [Hx Hp]. split; [|assumption]. unfold Restorable.
+    destruct p; [right; left; reflexivity|right; right; left; auto|left; assumption]. }
+  induction ls as [|l r IH]; intros t g done t0 b t' HT Hnd H1 H2 H3 H; cbn [try_locks_from] in H.
+  - inversion H; subst. split; [assumption|]. split; [assumption|]. discriminate.
+  - destruct (lk_eqb l LCkpt && negb (gstate_eqb (state (t LWrite)) Unlocked) && negb (gstate_eqb (gst (t LWrite) g) Exclusive)).
+    + destruct (refuse_facts t g done t0 (b, t') Exclusive HT (nodup_app_l _ _ Hnd) (Hres _ _ _ _ H1) H2 H3 H) as [Hb [HT' Hall]].
+      cbn [fst snd] in *. split; [assumption|]. split; [intros; apply Hall|intros _; exact Hall].
+    + destruct (trylock_facts t l g HT) as [bb [t1 [E [HT1 [Ho [Hh [Ht Hf]]]]]]]. rewrite E in H.
+      assert (Hl : ~ In l (map fst done)) by (intros Hi; apply (nodup_app_disj _ _ l Hnd Hi); left; reflexivity).
+      assert (Hd : forall l' p, In (l', p) done -> l' <> l).
+      { intros l' p Hin ->. apply Hl. apply in_map_iff. exists (l, p). auto. }
+      assert (H3' : forall l' h, h <> g -> gst (t1 l') h = gst (t0 l') h).
+      { intros l' h Hne. rewrite <- H3 by assumption. destruct (lk_eq_dec l' l) as [->|Hn]; [apply Hh; assumption|rewrite Ho by assumption; reflexivity]. }
+      destruct bb.
+      * apply (IH t1 g (done ++ [(l, gst (t l) g)]) t0 b t' HT1); try assumption.
+        -- rewrite map_app. cbn [map fst]. rewrite <- app_assoc. exact Hnd.
+        -- intros l' p Hin. apply in_app_iff in Hin. destruct Hin as [Hin|[Heq|[]]].
+           ++ rewrite (Ho l' (Hd l' p Hin)). apply H1. assumption.
+           ++ inversion Heq; subst. split; [apply Ht; reflexivity|apply H2; assumption].
+        -- intros l' Hn. rewrite map_app, in_app_iff in Hn. cbn [map fst In] in Hn.
+           assert (l' <> l) as Hne by (intros ->; tauto). rewrite (Ho l' Hne). apply H2. tauto.
+      * assert (H1' : forall l' p, In (l', p) done -> gst (t1 l') g = Exclusive /\ p = gst (t0 l') g).
+        { intros l' p Hin. rewrite (Ho l' (Hd l' p Hin)). apply H1. assumption. }
+        assert (H2' : forall l', ~ In l' (map fst done) -> gst (t1 l') g = gst (t0 l') g).
+        { intros l' Hn. destruct (lk_eq_dec l' l) as [->|Hne]; [rewrite (proj1 (Hf eq_refl)); apply H2; assumption|rewrite (Ho l' Hne); apply H2; assumption]. }
+        destruct (refuse_facts t1 g done t0 (b, t') Exclusive HT1 (nodup_app_l _ _ Hnd) (Hres _ _ _ _ H1') H2' H3' H) as [Hb [HT' Hall]].
+        cbn [fst snd] in *. split; [assumption|]. split; [intros; apply Hall|intros _; exact Hall].
+Qed.
+
+Lemma try_locks_others : forall ls t g b t', TInv t -> NoDup ls -> try_locks t g ls = Some (b, t') ->
+  TInv t' /\ forall l h, h <> g -> gst (t' l) h = gst (t l) h.
+Proof.
+  intros ls t g b t' HT Hnd H. unfold try_locks in H.
+  destruct (try_locks_from_facts ls t g [] t b t' HT Hnd) as [A [B _]]; auto. intros l p [].
+Qed.
+(* a refused request changes nothing: every owner's state on every lock is what it was *)
+Theorem try_locks_refused_changes_nothing : forall ls t g t', TInv t -> NoDup ls -> try_locks t g ls = Some (false, t') ->
+  forall l h, gst (t' l) h = gst (t l) h.
+Proof.
+  intros ls t g t' HT Hnd H. unfold try_locks in H.
+  destruct (try_locks_from_facts ls t g [] t false t' HT Hnd) as [_ [_ C]]; auto. intros l p [].
+Qed.
+
+Lemma try_rlocks_from_facts : forall ls t g done t0 b t',
+  TInv t -> NoDup (map fst done ++ ls) ->
+  (forall l p, In (l, p) done -> gst (t l) g = Shared /\ p = gst (t0 l) g /\ (p = Exclusive -> forall h, h <> g -> gst (t l) h = Unlocked)) ->
+  (forall l, ~ In l (map fst done) -> gst (t l) g = gst (t0 l) g) ->
+  (forall l h, h <> g -> gst (t l) h = gst (t0 l) h) ->
+  try_rlocks_from t g ls done = Some (b, t') ->
+  TInv t' /\ (forall l h, h <> g -> gst (t' l) h = gst (t0 l) h) /\
+  (b = false -> forall l h, gst (t' l) h = gst (t0 l) h).
+Proof.
+  assert (Hres : forall t g done t0,
+             (forall l p, In (l, p) done -> gst (t l) g = Shared /\ p = gst (t0 l) g /\ (p = Exclusive -> forall h, h <> g -> gst (t l) h = Unlocked)) ->
+             forall l p, In (l, p) done -> Restorable t g l p /\ p = gst (t0 l) g).
+  { intros t g done t0 H l p Hin. destruct (H l p Hin) as [Hs [Hp Hx]]. split; [|assumption]. unfold Restorable.
+    destruct p; [right; left; reflexivity|left; assumption|right; right; right; auto]. }
+  induction ls as [|l r IH]; intros t g done t0 b t' HT Hnd H1 H2 H3 H; cbn [try_rlocks_from] in H.
+  - inversion H; subst. split; [assumption|]. split; [assumption|]. discriminate.
+  - destruct (tryrlock_facts t l g HT) as [bb [t1 [E [HT1 [Ho [Hh [Ht Hf]]]]]]]. rewrite E in H.
+    assert (Hl : ~ In l (map fst done)) by (intros Hi; apply (nodup_app_disj _ _ l Hnd Hi); left; reflexivity).
+    assert (Hd : forall l' p, In (l', p) done -> l' <> l).
+    { intros l' p Hin ->. apply Hl. apply in_map_iff. exists (l, p). auto. }
+    assert (H3' : forall l' h, h <> g -> gst (t1 l') h = gst (t0 l') h).
+    { intros l' h Hne. rewrite <- H3 by assumption. destruct (lk_eq_dec l' l) as [->|Hn]; [apply Hh; assumption|rewrite Ho by assumption; reflexivity]. }
+    destruct bb.
+    + apply (IH t1 g (done ++ [(l, gst (t l) g)]) t0 b t' HT1); try assumption.
+      * rewrite map_app. cbn [map fst]. rewrite <- app_assoc. exact Hnd.
+      * intros l' p Hin. apply in_app_iff in Hin. destruct Hin as [Hin|[Heq|[]]].
+        -- rewrite (Ho l' (Hd l' p Hin)). apply H1. assumption.
+        -- inversion Heq; subst. split; [apply Ht; reflexivity|]. split; [apply H2; assumption|].
+           intros Hx h Hne. rewrite (Hh h Hne). apply (excl_alone (t l') g (HT l') Hx h Hne).
+      * intros l' Hn. rewrite map_app, in_app_iff in Hn. cbn [map fst In] in Hn.
+        assert (l' <> l) as Hne by (intros ->; tauto). rewrite (Ho l' Hne). apply H2. tauto.
+    + assert (H1' : forall l' p, In (l', p) done -> gst (t1 l') g = Shared /\ p = gst (t0 l') g /\ (p = Exclusive -> forall h, h <> g -> gst (t1 l') h = Unlocked)).
+      { intros l' p Hin. rewrite (Ho l' (Hd l' p Hin)). apply H1. assumption. }
+      assert (H2' : forall l', ~ In l' (map fst done) -> gst (t1 l') g = gst (t0 l') g).
+      { intros l' Hn. destruct (lk_eq_dec l' l) as [->|Hne]; [rewrite (proj1 (Hf eq_refl)); apply H2; assumption|rewrite (Ho l' Hne); apply H2; assumption]. }
+      destruct (refuse_facts t1 g done t0 (b, t') Shared HT1 (nodup_app_l _ _ Hnd) (Hres _ _ _ _ H1') H2' H3' H) as [Hb [HT' Hall]].
+      cbn [fst snd] in *. split; [assumption|]. split; [intros; apply Hall|intros _; exact Hall].
+Qed.
+Lemma try_rlocks_others : forall ls t g b t', TInv t -> NoDup ls -> try_rlocks t g ls = Some (b, t') ->
+  TInv t' /\ forall l h, h <> g -> gst (t' l) h = gst (t l) h.
+Proof.
+  intros ls t g b t' HT Hnd H. unfold try_rlocks in H.
+  destruct (try_rlocks_from_facts ls t g [] t b t' HT Hnd) as [A [B _]]; auto. intros l p [].
+Qed.
+Theorem try_rlocks_refused_changes_nothing : forall ls t g t', TInv t -> NoDup ls -> try_rlocks t g ls = Some (false, t') ->
+  forall l h, gst (t' l) h = gst (t l) h.
+Proof.
+  intros ls t g t' HT Hnd H. unfold try_rlocks in H.
+  destruct (try_rlocks_from_facts ls t g [] t false t' HT Hnd) as [_ [_ C]]; auto. intros l p [].
+Qed.
+
+(* ---- CKPT gating ---- *)
+Lemma ckpt_gating_from : forall ls t g done t', TInv t -> try_locks_from t g ls done = Some (true, t') -> In LCkpt ls ->
   forall h, h <> g -> gst (t LWrite) h = Unlocked.
 Proof.
-  induction ls as [|l0 r IH]; intros t g t' HT H Hin h Hne; [destruct Hin|]. cbn [try_locks] in H.
-  destruct (lk_eqb l0 LCkpt && negb (gstate_eqb (state (t LWrite)) Unlocked) && negb (gstate_eqb (gst (t LWrite) g) Exclusive)) eqn:Hgate; [discriminate|].
-  destruct (trylock_facts t l0 g HT) as [bb [t1 [E [HT1 [Ho [Hh _]]]]]]. rewrite E in H. destruct bb; [|discriminate].
+  induction ls as [|l0 r IH]; intros t g done t' HT H Hin h Hne; [destruct Hin|]. cbn [try_locks_from] in H.
+  destruct (lk_eqb l0 LCkpt && negb (gstate_eqb (state (t LWrite)) Unlocked) && negb (gstate_eqb (gst (t LWrite) g) Exclusive)) eqn:Hgate.
+  { unfold refuse in H. destruct (restore_guards t g done); discriminate. }
+  destruct (trylock_facts t l0 g HT) as [bb [t1 [E [HT1 [Ho [Hh _]]]]]]. rewrite E in H. destruct bb.
+  2:{ unfold refuse in H. destruct (restore_guards t1 g done); discriminate. }
   destruct (lk_eq_dec l0 LCkpt) as [->|Hl0].
   - (* the gate was open: nobody holds WRITE, or g holds it exclusively *)
     cbn [lk_eqb andb] in Hgate. apply andb_false_iff in Hgate. destruct Hgate as [Hg|Hg]; apply negb_false_iff, gstate_eqb_eq in Hg.
     + pose proof (state_spec (t LWrite) (HT LWrite)) as Hs. rewrite Hg in Hs. cbn in Hs. apply Hs.
     + apply (excl_alone (t LWrite) g (HT LWrite) Hg). assumption.
   - destruct Hin as [E0|Hin]; [congruence|].
-    rewrite <- (IH t1 g t' HT1 H Hin h Hne).
+    rewrite <- (IH t1 g _ t' HT1 H Hin h Hne).
     destruct (lk_eq_dec LWrite l0) as [<-|Hw]; [symmetry; apply Hh; assumption|rewrite Ho by assumption; reflexivity].
 Qed.
+Theorem ckpt_gating : forall ls t g t', TInv t -> try_locks t g ls = Some (true, t') -> In LCkpt ls ->
+  forall h, h <> g -> gst (t LWrite) h = Unlocked.
+Proof. intros ls t g t' HT H. exact (ckpt_gating_from ls t g [] t' HT H). Qed.
 
 (* WAL writes are refused unless some owner holds WRITE exclusively *)
 Theorem wal_write_allowed_iff t : TInv t -> (wal_write_allowed t = true <-> exists g, gst (t LWrite) g = Exclusive).
@@ -273,15 +443,37 @@ Proof.
   destruct (unlock_all t1 g all_locks); discriminate.
 Qed.
 
+(* the invariant alone, for any list of locks (also one that names a lock twice) *)
+Lemma restore_guards_inv : forall done t g t', TInv t -> restore_guards t g done = Some t' -> TInv t'.
+Proof.
+  induction done as [|[l p] r IH]; intros t g t' HT H; cbn [restore_guards] in H; [inversion H; subst; assumption|].
+  destruct (restore_one t g l p) as [t1|] eqn:E; [|discriminate]. apply (IH t1 g t'); [|assumption].
+  unfold restore_one in E. destruct (gstate_eqb (gst (t l) g) p); [inversion E; subst; assumption|]. destruct p.
+  - destruct (unlock_facts t l g HT) as [t2 [E2 [HT2 _]]]. rewrite E2 in E. inversion E; subst. assumption.
+  - destruct (tryrlock_facts t l g HT) as [b [t2 [E2 [HT2 _]]]]. rewrite E2 in E. inversion E; subst. assumption.
+  - destruct (trylock_facts t l g HT) as [b [t2 [E2 [HT2 _]]]]. rewrite E2 in E. inversion E; subst. assumption.
+Qed.
+Lemma refuse_inv t g done b t' : TInv t -> refuse t g done = Some (b, t') -> TInv t'.
+Proof. unfold refuse. intros HT H. destruct (restore_guards t g done) as [t1|] eqn:E; [|discriminate]. inversion H; subst. eapply restore_guards_inv; eassumption. Qed.
+Lemma try_locks_from_inv : forall ls t g done b t', TInv t -> try_locks_from t g ls done = Some (b, t') -> TInv t'.
+Proof.
+  induction ls as [|l r IH]; intros t g done b t' HT H; cbn [try_locks_from] in H; [inversion H; subst; assumption|].
+  destruct (lk_eqb l LCkpt && negb (gstate_eqb (state (t LWrite)) Unlocked) && negb (gstate_eqb (gst (t LWrite) g) Exclusive)).
+  - eapply refuse_inv; eassumption.
+  - destruct (trylock_facts t l g HT) as [bb [t1 [E [HT1 _]]]]. rewrite E in H. destruct bb; [eapply IH; eassumption|eapply refuse_inv; eassumption].
+Qed.
+Lemma try_rlocks_from_inv : forall ls t g done b t', TInv t -> try_rlocks_from t g ls done = Some (b, t') -> TInv t'.
+Proof.
+  induction ls as [|l r IH]; intros t g done b t' HT H; cbn [try_rlocks_from] in H; [inversion H; subst; assumption|].
+  destruct (tryrlock_facts t l g HT) as [bb [t1 [E [HT1 _]]]]. rewrite E in H. destruct bb; [eapply IH; eassumption|eapply refuse_inv; eassumption].
+Qed.
+
 (* every table reachable through the API keeps the per-lock invariant *)
 Lemma lstep_inv t o c t' : TInv t -> lstep t o = Some (c, t') -> TInv t'.
 Proof.
   intros HT H. destruct o; cbn [lstep] in H.
-  - destruct (try_locks t g (map lk_of ls)) as [[b t1]|] eqn:E; [|discriminate]. inversion H; subst. apply (try_locks_others _ _ _ _ _ HT E).
-  - assert (forall ls0 t0 b t1, TInv t0 -> try_rlocks t0 g ls0 = Some (b, t1) -> TInv t1) as G.
-    { induction ls0 as [|l0 r IH]; intros t0 b t1 HT0 H0; cbn [try_rlocks] in H0; [inversion H0; subst; assumption|].
-      destruct (tryrlock_facts t0 l0 g HT0) as [bb [t2 [E [HT2 _]]]]. rewrite E in H0. destruct bb; [eapply IH; eassumption|inversion H0; subst; assumption]. }
-    destruct (try_rlocks t g (map lk_of ls)) as [[b t1]|] eqn:E; [|discriminate]. inversion H; subst. eapply G; eassumption.
+  - destruct (try_locks t g (map lk_of ls)) as [[b t1]|] eqn:E; [|discriminate]. inversion H; subst. apply (try_locks_from_inv _ _ _ _ _ _ HT E).
+  - destruct (try_rlocks t g (map lk_of ls)) as [[b t1]|] eqn:E; [|discriminate]. inversion H; subst. apply (try_rlocks_from_inv _ _ _ _ _ _ HT E).
   - destruct (unlock_all_facts (map lk_of ls) t g HT) as [t2 [E2 [HT2 _]]]. rewrite E2 in H. inversion H; subst. assumption.
   - destruct (can_lock t g (map lk_of ls)) as [[b m]|]; inversion H; subst; assumption.
   - destruct (can_rlock t g (map lk_of ls)) as [b|]; inversion H; subst; assumption.
